@@ -46,7 +46,7 @@ def required_cells(tier):
             "pass-with-modes", "user-extends-builtin", "user-redefines-as-alias", "implicit==explicit", "alias==target",
             "repeat-parse", "implicit-option:attached-value", "builtin:gcc", "builtin:clang", "builtin:icx", "builtin:nvcc", "e2e:_OPENMP", "e2e:__CUDA_ARCH__",
             "e2e:__SYCL_DEVICE_ONLY__", "e2e:passes-differ-in-include-files", "unknown-compiler", "e2e:passes-differ-in-include-paths", "format:$value", "format:${value}", "argv0:symlink-to-known-compiler",
-            "implicit-option:dollar-name-set-in-environment", "argv:strict-prefix-of-configured-flag", "e2e:launcher-as-argv0"]
+            "implicit-option:dollar-name-set-in-environment", "argv:strict-prefix-of-configured-flag", "e2e:launcher-as-argv0", "default:plain-string"]
 
 
 # ------------------------------------------------------------------ TOML --
@@ -134,6 +134,10 @@ def gen_config(rng):
             cells.add("format:" + ("$value" if "$v" in r["format"] else "${value}"))
             if rng.random() < 0.6:
                 r["default"] = [passes[0]["name"]]
+                if fcount[0] % 3 == 0:
+                    # the schema also allows a plain string: one pass name, not a list of letters
+                    r["default"] = passes[0]["name"]
+                    cells.add("default:plain-string")
             if len(r["flags"]) == 2:
                 cells.add("rule:two-flags")
             rules.append(r)
@@ -144,6 +148,9 @@ def gen_config(rng):
             cells.add("format:" + ("$value" if "$v" in r["format"] else "${value}"))
             if rng.random() < 0.7:
                 r["default"] = [passes[-1]["name"]]
+                if fcount[0] % 3 == 1:
+                    r["default"] = passes[-1]["name"]
+                    cells.add("default:plain-string")
             if rng.random() < 0.5:
                 r["override"] = True
                 cells.add("extend_match:override")
